@@ -19,7 +19,9 @@ namespace c02
       std::unique_ptr<Holder<M>> h(new Holder<M>());
       if(variant == 0) h->m = m.transpose();
       else if(variant == 1) h->m.transpose(m);
-      else { h->m.clone(m, CloneMode::Deep); h->m.transpose(m); } // non-empty target
+      else if(variant == 2 || variant == 3) { h->m.clone(m, CloneMode::Deep); h->m.transpose(m); } // non-empty target
+      else if(variant == 4) { M t; t.transpose(m); h->m.clone(t, CloneMode::Deep); h->m.format(DT(7)); h->m.transpose(m); } // target already has the result layout
+      else { h->m.clone(m, CloneMode::Deep); h->m.transpose(h->m); } // source is the target
       return P(h.release());
     }
   };
@@ -63,7 +65,11 @@ namespace c02
       std::unique_ptr<Holder<M>> h(new Holder<M>());
       if(variant == 0) h->m = m.transpose();
       else if(variant == 1) h->m.transpose(m);                                   // default-constructed target
-      else { h->m = DenseMatrix<DT, IT>(m.columns(), m.rows(), DT(7)); h->m.transpose(m); } // target with matching dims
+      else if(variant == 2 || m.size() == Index(0)) { h->m = DenseMatrix<DT, IT>(m.columns(), m.rows(), DT(7)); h->m.transpose(m); } // target with matching dims
+      else if(variant == 3) { h->m = DenseMatrix<DT, IT>(m.rows(), m.columns(), DT(7)); h->m.transpose(m); }     // target with the source's shape (same size)
+      else if(variant == 4) { h->m = DenseMatrix<DT, IT>(Index(1), m.size(), DT(7)); h->m.transpose(m); }         // another factorisation of the size
+      else if(variant == 5) { h->m = DenseMatrix<DT, IT>(m.rows() + Index(1), m.columns() + Index(2), DT(7)); h->m.transpose(m); } // larger target
+      else { h->m.clone(m, CloneMode::Deep); h->m.transpose(h->m); }                                               // source is the target
       return P(h.release());
     }
   };
@@ -83,7 +89,8 @@ namespace c02
     {
       std::unique_ptr<Holder<MT>> h(new Holder<MT>());
       if(variant == 0) h->m = m.transpose();
-      else h->m.transpose(m);
+      else if(variant <= 3) h->m.transpose(m);
+      else { MT t; t.transpose(m); h->m.clone(t, CloneMode::Deep); h->m.format(DT(7)); h->m.transpose(m); } // non-empty target with the result layout
       return P(h.release());
     }
   };
